@@ -25,11 +25,13 @@ CONSTANTS
   RichOnly = FALSE
   NeedStruct = FALSE
   MaxRich <- Unlimited
+  NBrkPlaces = 9
+  SplitUnits = FALSE
   PKinds <- KMut
   MaxEdits = 3
   NCmtCls = 9
   NCppForms = 30
-  NGarb = 8
+  NGarb = 10
   DirectiveCls <- DirCls
 INVARIANT WellNested
 INVARIANT GrammarInNest
